@@ -299,6 +299,28 @@ impl Scenario for C07S {
                 }
                 seen.push(h.c);
             }
+            // real-time order across the two sender phases: a message whose send had returned before
+            // another one's send began went into the channel first and must be handled first
+            {
+                let span = |q: i64| -> (u64, u64) {
+                    let inv = evs.iter().find(|e| e.op == "send.inv" && e.a == route && e.b == q).map(|e| e.seq).unwrap_or(0);
+                    let ret = evs.iter().find(|e| e.op == "send.ok" && e.a == route && e.b == q).map(|e| e.seq).unwrap_or(u64::MAX);
+                    (inv, ret)
+                };
+                let mut latest_inv: Option<(u64, i64)> = None;
+                for h in handled.iter().filter(|h| h.b == route) {
+                    let (inv, ret) = span(h.c);
+                    if let Some((li, lq)) = latest_inv {
+                        if ret < li {
+                            out.viol("order:handler", format!("route {}: message {} (send returned at #{}) was handled after message {} whose send began only at #{}", route, h.c, ret, lq, li));
+                            break;
+                        }
+                    }
+                    if latest_inv.map(|(li, _)| inv > li).unwrap_or(true) {
+                        latest_inv = Some((inv, h.c));
+                    }
+                }
+            }
             for e in evs.iter().filter(|e| e.op == "handled.bad" && e.a == route) {
                 out.viol("torn:handler", format!("route {}: {}", route, e.s));
             }
